@@ -41,7 +41,8 @@ CONTRACTS = {
                       '(0 - self.model.lec_upper_quotas[p.lecturer_index]) * nu(p.alpha_var) + lksum(LLof(p), p, len(LLof(p))) >= 0'
                       ' and (0 - self.model.proj_upper_quotas[p.project_index]) * nu(p.beta_var) + pjsum(LLof(p), p, len(LLof(p))) >= 0'
                       ' and wants(row, p) - nu(p.alpha_var) - nu(p.beta_var) <= 0'),
-          'row_ok': (['i', 'upto'], 'forall(c, 0, upto, stab_ok(self.model.pairs[i], self.model.pairs[i][c]))')},
+          'pair_stab_ok': (['i', 'c'], 'stab_ok(self.model.pairs[i], self.model.pairs[i][c])', 'opaque'),
+          'row_ok': (['i', 'upto'], 'forall(c, 0, upto, pair_stab_ok(i, c))')},
     loops={0: dict(invariant=['feas() == (old(feas()) and forall(i, 0, _k, row_ok(i, len(self.model.pairs[i]))))']),
            1: dict(invariant=['feas() == (old(feas()) and forall(i, 0, _k0, row_ok(i, len(self.model.pairs[i]))) and row_ok(_k0, _k))']),
            2: dict(invariant=['0 <= index and index <= st_pref_length',
@@ -55,7 +56,8 @@ CONTRACTS = {
     use_lemmas={'loop2.exit': [('C05/prefix-filter', {'r': 'lam(q, st_pref_length, pairs_row[q].rank_student)',
                                                      'x': 'lam(q, st_pref_length, nu(pairs_row[q].lp_var))',
                                                      'n': 'st_pref_length', 'idx': 'index', 'aim': 'aim_rank'})]},
-    asserts={'loop2.exit': [('wants-to-move-is-one-minus-the-variables-at-equal-or-better-rank', 's_i_wants_to_move_exp == wants(pairs_row, pair)')]},
+    asserts={'loop2.exit': [('wants-to-move-is-one-minus-the-variables-at-equal-or-better-rank', 's_i_wants_to_move_exp == wants(pairs_row, pair)')],
+             'loop1.body_end': [('this-iteration-adds-exactly-the-three-constraints-of-this-pair', 'feas() == (prev(feas()) and pair_stab_ok(i, j))')]},
     modifies=['self.info_string', 'ghost:feas'],
     ensures=[('constraints-are-exactly-alpha-beta-gamma-per-acceptable-pair',
               'feas() == (old(feas()) and forall(i, 0, self.model.num_students, row_ok(i, len(self.model.pairs[i]))))')]),
